@@ -27,6 +27,7 @@ import (
 	"k8s.io/apimachinery/pkg/watch"
 
 	"github.com/dadrus/heimdall/internal/config"
+	"github.com/dadrus/heimdall/internal/handler/requestcontext"
 	"github.com/dadrus/heimdall/internal/rules"
 	rconfig "github.com/dadrus/heimdall/internal/rules/config"
 	"github.com/dadrus/heimdall/internal/rules/provider/cloudblob"
@@ -82,6 +83,16 @@ var errC18Rejected = errors.New("verif: rule set processor rejects the call")
 // contents
 
 // content of version v: one rule `v<v>` on the path /c<v>; the version alone determines the bytes
+// c18Path is the one path expression of content v. The versions v and v+500 (v < 500) use the same expression: the
+// repository lets only one source own an expression, so it refuses the later one if it comes from another source.
+func c18Path(v int) int {
+	if v < 1000 {
+		return v % 500
+	}
+
+	return v
+}
+
 func c18Doc(v int, bad bool) []byte {
 	asJSON := v%5 == 0
 	ver := rconfig.CurrentRuleSetVersion
@@ -91,11 +102,11 @@ func c18Doc(v int, bad bool) []byte {
 
 	if asJSON {
 		return []byte(fmt.Sprintf(`{"version":"%s","name":"rs%d","rules":[{"id":"v%d","match":{"routes":[{"path":"/c%d"}]},`+
-			`"execute":[{"authenticator":"a"}]}]}`, ver, v, v, v))
+			`"execute":[{"authenticator":"a"}]}]}`, ver, v, v, c18Path(v)))
 	}
 
 	return []byte(fmt.Sprintf("version: \"%s\"\nname: rs%d\nrules:\n- id: v%d\n  match:\n    routes:\n      - path: /c%d\n"+
-		"  execute:\n    - authenticator: a\n", ver, v, v, v))
+		"  execute:\n    - authenticator: a\n", ver, v, v, c18Path(v)))
 }
 
 var c18Invalid = [][]byte{
@@ -254,13 +265,14 @@ func (p *c18Proc) take() []any {
 }
 
 type c18Env struct {
+	probes  []int
 	repo    rule.Repository
 	factory rule.Factory
 	proc    *c18Proc
 	hashes  *c18Hashes
 }
 
-func newC18Env(canon func(string) string) (*c18Env, error) {
+func newC18Env(c map[string]any, canon func(string) string) (*c18Env, error) {
 	factory, err := rules.NewRuleFactory(stubFactory{}, &config.Configuration{}, config.DecisionMode, zerolog.Nop())
 	if err != nil {
 		return nil, err
@@ -268,12 +280,15 @@ func newC18Env(canon func(string) string) (*c18Env, error) {
 
 	repo := rules.VerifNewRepository(factory)
 
-	return &c18Env{
+	env := &c18Env{
 		repo:    repo,
 		factory: factory,
 		proc:    &c18Proc{inner: rules.NewRuleSetProcessor(repo, factory), canon: canon, seen: make(chan string, 64)},
 		hashes:  &c18Hashes{m: map[string]string{}},
-	}, nil
+	}
+	env.probesOf(c)
+
+	return env, nil
 }
 
 // rule sets active in the real repository: [[source, [rule ids in repository order]], ...] sorted by source
@@ -328,8 +343,67 @@ func (e *c18Env) book(states map[string][]byte) []any {
 	return res
 }
 
+// every content number mentioned in the case (contents the processor refuses for themselves are never loaded)
+func c18Versions(x any, into map[int]bool) {
+	switch t := x.(type) {
+	case map[string]any:
+		for k, v := range t {
+			if k == "v" {
+				if n := getInt(t, "v"); n > 0 && n < 1000 {
+					into[c18Path(n)] = true
+				}
+			} else {
+				c18Versions(v, into)
+			}
+		}
+	case []any:
+		for _, v := range t {
+			c18Versions(v, into)
+		}
+	}
+}
+
+func (e *c18Env) probesOf(c map[string]any) {
+	m := map[int]bool{}
+	c18Versions(c, m)
+
+	e.probes = e.probes[:0]
+	for p := range m {
+		e.probes = append(e.probes, p)
+	}
+
+	sort.Ints(e.probes)
+}
+
+// what the repository really answers with: for the path expression of every content of the case the rule found by
+// FindRule, [[path, source, rule id], ...]; paths nobody serves are left out
+func (e *c18Env) served() []any {
+	res := []any{}
+
+	for _, p := range e.probes {
+		req, err := newHTTPRequest(http.MethodGet, fmt.Sprintf("/c%d", p), "verif.local")
+		if err != nil {
+			continue
+		}
+
+		rul, err := e.repo.FindRule(requestcontext.New(req))
+		if err != nil || rul == nil {
+			continue
+		}
+
+		if e.proc.hidden != nil && e.proc.hidden(rul.SrcID()) {
+			continue
+		}
+
+		res = append(res, []any{fmt.Sprintf("/c%d", p), e.proc.canon(rul.SrcID()), rul.ID()})
+	}
+
+	return res
+}
+
 func (e *c18Env) snapshot(states map[string][]byte, err error) map[string]any {
-	return map[string]any{"calls": e.proc.take(), "active": e.active(), "book": e.book(states), "err": err != nil}
+	return map[string]any{"calls": e.proc.take(), "active": e.active(), "served": e.served(), "book": e.book(states),
+		"err": err != nil}
 }
 
 // sort the calls of one step by (source, position): used where the implementation iterates over a Go map
@@ -339,6 +413,19 @@ func c18SortCalls(calls []any) []any {
 	})
 
 	return calls
+}
+
+// c18Server starts a test server on a loopback port from the kernel (retrying while the port range is exhausted)
+func c18Server(h http.Handler) (*httptest.Server, error) {
+	ln, err := verifListen("127.0.0.1:0")
+	if err != nil {
+		return nil, err
+	}
+
+	srv := &httptest.Server{Listener: ln, Config: &http.Server{Handler: h}} //nolint:gosec
+	srv.Start()
+
+	return srv, nil
 }
 
 func c18Logger() zerolog.Logger {
@@ -401,8 +488,9 @@ func runProvFS(c map[string]any, live bool) (any, error) {
 	dir := filepath.Join(root, "rules")
 	stage := filepath.Join(root, "stage")
 	away := filepath.Join(root, "away")
+	targets := filepath.Join(root, "targets")
 
-	for _, d := range []string{dir, stage, away} {
+	for _, d := range []string{dir, stage, away, targets} {
 		if err = os.Mkdir(d, 0o755); err != nil {
 			return nil, err
 		}
@@ -417,7 +505,7 @@ func runProvFS(c map[string]any, live bool) (any, error) {
 		return strings.TrimSuffix(filepath.Base(strings.TrimPrefix(src, "file_system:")), ".yaml")
 	}
 
-	env, err := newC18Env(canon)
+	env, err := newC18Env(c, canon)
 	if err != nil {
 		return nil, err
 	}
@@ -427,28 +515,53 @@ func runProvFS(c map[string]any, live bool) (any, error) {
 	}
 
 	seq := 0
-	// put a file into the given state without an observable intermediate state: the new content is moved in
+	// put a directory entry into the given state without an observable intermediate state: the new file (or symbolic
+	// link) is prepared elsewhere and moved in. "link": true makes the entry a symbolic link to a file / a directory /
+	// nothing (dangling) outside of the watched directory; the state is then the one of its target.
 	setFile := func(k int, spec map[string]any) error {
 		st := getStr(spec, "st")
-		if st == "dir" {
+		link := getBool(spec, "link")
+
+		if fi, err2 := os.Lstat(name(k)); err2 == nil && fi.IsDir() {
+			_ = os.RemoveAll(name(k))
+		}
+
+		if st == "dir" && !link {
 			_ = os.RemoveAll(name(k))
 
 			return os.Mkdir(name(k), 0o755)
 		}
 
 		data, exists := env.bytesOf(spec)
-		if !exists {
+		if !exists && !link {
 			return os.RemoveAll(name(k))
-		}
-
-		if fi, err2 := os.Lstat(name(k)); err2 == nil && fi.IsDir() {
-			_ = os.RemoveAll(name(k))
 		}
 
 		seq++
 		tmp := filepath.Join(stage, fmt.Sprintf("f%d", seq))
 
-		if err2 := os.WriteFile(tmp, data, 0o644); err2 != nil {
+		if !link {
+			if err2 := os.WriteFile(tmp, data, 0o644); err2 != nil {
+				return err2
+			}
+
+			return os.Rename(tmp, name(k))
+		}
+
+		target := filepath.Join(targets, fmt.Sprintf("t%d", seq))
+
+		switch {
+		case st == "dir":
+			if err2 := os.Mkdir(target, 0o755); err2 != nil {
+				return err2
+			}
+		case exists:
+			if err2 := os.WriteFile(target, data, 0o644); err2 != nil {
+				return err2
+			}
+		}
+
+		if err2 := os.Symlink(target, tmp); err2 != nil {
 			return err2
 		}
 
@@ -592,13 +705,55 @@ func runProvFS(c map[string]any, live bool) (any, error) {
 // Configured endpoints: case["endpoints"] = [{"host": i, "path": "/rules", "query": "tenant=a"}, ...] (default: n
 // endpoints /e0../e<n-1> on one host). Two hosts are two servers on different loopback ports; endpoints may share the
 // path and differ in the host or in the query only.
+// the test servers ("hosts") live as long as the process: a listener per case would wear out the loopback port range
+// when many checks run side by side. Requests are handed to the handler of the case being run.
+var c18HTTP struct {
+	mu   sync.Mutex
+	srvs map[int]*httptest.Server
+	cur  func(host int) http.Handler
+}
+
+func c18HTTPHost(host int) (*httptest.Server, error) {
+	c18HTTP.mu.Lock()
+	defer c18HTTP.mu.Unlock()
+
+	if srv := c18HTTP.srvs[host]; srv != nil {
+		return srv, nil
+	}
+
+	srv, err := c18Server(http.HandlerFunc(func(w http.ResponseWriter, r *http.Request) {
+		c18HTTP.mu.Lock()
+		cur := c18HTTP.cur
+		c18HTTP.mu.Unlock()
+
+		if cur == nil {
+			w.WriteHeader(http.StatusServiceUnavailable)
+
+			return
+		}
+
+		cur(host).ServeHTTP(w, r)
+	}))
+	if err != nil {
+		return nil, err
+	}
+
+	if c18HTTP.srvs == nil {
+		c18HTTP.srvs = map[int]*httptest.Server{}
+	}
+
+	c18HTTP.srvs[host] = srv
+
+	return srv, nil
+}
+
 func runProvHTTP(c map[string]any) (any, error) {
 	var (
 		mu   sync.Mutex
 		resp = map[string]map[string]any{}
 	)
 
-	env, err := newC18Env(nil)
+	env, err := newC18Env(c, nil)
 	if err != nil {
 		return nil, err
 	}
@@ -616,7 +771,7 @@ func runProvHTTP(c map[string]any) (any, error) {
 			case "netfail":
 				if hj, ok := w.(http.Hijacker); ok {
 					if conn, _, err2 := hj.Hijack(); err2 == nil {
-						_ = conn.Close()
+						verifCloseNow(conn)
 					}
 				}
 			case "badct":
@@ -654,10 +809,14 @@ func runProvHTTP(c map[string]any) (any, error) {
 
 	srvs := map[int]*httptest.Server{}
 
+	c18HTTP.mu.Lock()
+	c18HTTP.cur = handler
+	c18HTTP.mu.Unlock()
+
 	defer func() {
-		for _, srv := range srvs {
-			srv.Close()
-		}
+		c18HTTP.mu.Lock()
+		c18HTTP.cur = nil
+		c18HTTP.mu.Unlock()
 	}()
 
 	eps := []any{}
@@ -669,7 +828,12 @@ func runProvHTTP(c map[string]any) (any, error) {
 		host := getInt(lm, "host")
 
 		if srvs[host] == nil {
-			srvs[host] = httptest.NewServer(handler(host))
+			srv, err2 := c18HTTPHost(host)
+			if err2 != nil {
+				return nil, err2
+			}
+
+			srvs[host] = srv
 		}
 
 		url := srvs[host].URL + getStr(lm, "path")
@@ -770,7 +934,7 @@ func c18S3(idx int) *c18Store {
 		backend := s3mem.New()
 		inner := gofakes3.New(backend).Server()
 
-		srv := httptest.NewServer(http.HandlerFunc(func(w http.ResponseWriter, r *http.Request) {
+		srv, err := c18Server(http.HandlerFunc(func(w http.ResponseWriter, r *http.Request) {
 			parts := strings.SplitN(strings.TrimPrefix(r.URL.Path, "/"), "/", 2)
 			if kind, ok := c18S3Fail.Load(fmt.Sprintf("%d/%s", n, parts[0])); ok {
 				switch kind {
@@ -785,7 +949,7 @@ func c18S3(idx int) *c18Store {
 				case "netfail":
 					if hj, ok2 := w.(http.Hijacker); ok2 {
 						if conn, _, err := hj.Hijack(); err == nil {
-							_ = conn.Close()
+							verifCloseNow(conn)
 						}
 					}
 
@@ -795,6 +959,9 @@ func c18S3(idx int) *c18Store {
 
 			inner.ServeHTTP(w, r)
 		}))
+		if err != nil {
+			panic(err)
+		}
 
 		c18S3Stores = append(c18S3Stores, &c18Store{backend: backend, srv: srv})
 	}
@@ -867,7 +1034,7 @@ func runProvBlob(c map[string]any) (any, error) {
 		}
 	}()
 
-	env, err := newC18Env(nil)
+	env, err := newC18Env(c, nil)
 	if err != nil {
 		return nil, err
 	}
@@ -1087,7 +1254,7 @@ func (r *c18K8sRepo) named(name string, spec map[string]any) *v1alpha4.RuleSet {
 	v := getInt(spec, "v")
 	rs.Spec.Rules = []rconfig.Rule{{
 		ID:      fmt.Sprintf("v%d", v),
-		Matcher: rconfig.Matcher{Routes: []rconfig.Route{{Path: fmt.Sprintf("/c%d", v)}}},
+		Matcher: rconfig.Matcher{Routes: []rconfig.Route{{Path: fmt.Sprintf("/c%d", c18Path(v))}}},
 		Execute: []config.MechanismConfig{{"authenticator": "a"}},
 	}}
 
@@ -1120,7 +1287,7 @@ func runProvK8s(c map[string]any) (any, error) {
 	c18Panics.n = 0
 	c18Panics.mu.Unlock()
 
-	env, err := newC18Env(func(src string) string {
+	env, err := newC18Env(c, func(src string) string {
 		parts := strings.Split(src, ":")
 
 		return parts[len(parts)-1]
